@@ -703,6 +703,13 @@ def seed_field_coverage(ck, prog):
                       f"{adt.split('::')[-1]}::to_elements encodes the LENGTH of the variable-length field `{fld}` that it cuts into zero-padded chunks "
                       "(without it, values differing only in trailing zero bytes seed the coin identically)", loc=f.loc(b, T))
         _manual_chunks(ck, prog, f, adt)
+        from .stale import short_copy_sites
+        for sb, arr, fresh in short_copy_sites(prog.inl(f)):
+            ck.ob("E3.seed", f"seed-fresh-buffer:{adt.split('::')[-1]}", fresh,
+                  f"{adt.split('::')[-1]}::to_elements: a chunk of variable length is staged in a buffer re-initialised since the chunk was fetched "
+                  "(no bytes of the previous chunk are encoded behind a short last chunk)", loc=f.loc(),
+                  detail=None if fresh else "the staging buffer keeps the tail of the previous chunk: values that continue a short last chunk with those bytes "
+                                            "seed the coin identically")
         for fld in fields:
             ck.ob("E3.seed", f"seed-field:{adt.split('::')[-1]}.{fld}", fld in read,
                   f"{adt.split('::')[-1]}::to_elements encodes field `{fld}` into the coin seed "
